@@ -910,7 +910,7 @@ func main() {
 		{"pwr/bowl/bowl_overlay.go", "overlayBowl.Commit"}, {"pwr/bowl/bowl_overlay.go", "overlayBowl.GetWriter"}, {"pwr/bowl/bowl_overlay.go", "overlayBowl.Transpose"},
 		{"pwr/bowl/bowl_overlay.go", "overlayBowl.applyTranspositions"}, {"pwr/bowl/bowl_overlay.go", "overlayBowl.move"}, {"pwr/bowl/bowl_overlay.go", "overlayBowl.copy"},
 		{"pwr/bowl/bowl_overlay.go", "overlayBowl.applyMoves"}, {"pwr/bowl/bowl_overlay.go", "overlayBowl.applyOverlays"}, {"pwr/bowl/bowl_overlay.go", "overlayBowl.deleteGhosts"},
-		{"pwr/bowl/bowl_overlay.go", "overlayBowl.ensureDirsAndSymlinks"}, {"pwr/bowl/bowl_overlay.go", "detectGhosts"},
+		{"pwr/bowl/bowl_overlay.go", "overlayBowl.ensureDirs"}, {"pwr/bowl/bowl_overlay.go", "overlayBowl.ensureSymlinks"}, {"pwr/bowl/bowl_overlay.go", "detectGhosts"},
 		{"pwr/bowl/bowl_overlay.go", "overlayEntryWriter.Resume"}, {"pwr/bowl/bowl_overlay.go", "overlayEntryWriter.Save"},
 		{"pwr/overlay/overlay_writer.go", "overlayProcessor.write"}, {"pwr/overlay/overlay_writer.go", "overlayProcessor.Write"}, {"pwr/overlay/overlay_patch.go", "OverlayPatchContext.Patch"}, {"pwr/overlay/overlay_writer.go", "NewOverlayWriter"}, {"pwr/overlay/overlay_writer.go", "overlayWriter.Flush"}, {"pwr/overlay/overlay_writer.go", "overlayWriter.Finalize"},
 		{"pwr/rediff/rediff.go", "context.analyzePatch"}, {"pwr/rediff/rediff.go", "context.Optimize"},
